@@ -99,7 +99,6 @@ type c34Released struct {
 	sig         []byte
 	ts          time.Time
 	unpersisted bool // the state file did not record this signature when it was released
-	afterFail   bool // ... and an injected write failure hit a request at this height/round/step earlier in the same process
 }
 
 func c34Less(h1 int64, r1, s1 int, h2 int64, r2, s2 int) bool {
@@ -122,8 +121,6 @@ func c34Scratch() (string, error) {
 	d := filepath.Join(base, fmt.Sprintf("c34-%d-%d", os.Getpid(), c34Seq.Add(1)))
 	return d, os.MkdirAll(d, 0o755)
 }
-
-const c34Key = "released-after-failed-persist"
 
 func c34Exec(ctx *vk.Ctx, c c34Case) error {
 	root, err := c34Scratch()
@@ -161,7 +158,6 @@ func c34Exec(ctx *vk.Ctx, c c34Case) error {
 		return false
 	}
 	persistTrouble := false // a persist failure happened in the life of the current process
-	var failedAt []crashMark // height/round/step of the requests whose write was made to fail, current process only
 
 	for i, q := range c.Reqs {
 		step := c34Step(q.Kind)
@@ -237,7 +233,7 @@ func c34Exec(ctx *vk.Ctx, c c34Case) error {
 			if pv, err = load(); err != nil {
 				return fmt.Errorf("%s: cannot reload the validator after the crash: %v", where, err)
 			}
-			persistTrouble, failedAt = false, nil
+			persistTrouble = false
 			continue
 		}
 
@@ -264,20 +260,12 @@ func c34Exec(ctx *vk.Ctx, c c34Case) error {
 			if st, lerr := fstate.LoadFileState(path); lerr != nil || st.Height != q.H || st.Round != q.R || int(st.Step) != step || !bytes.Equal(st.SignBytes, sb) {
 				rel.unpersisted = true
 				ctx.Class("released-without-persisted-state")
-				for _, m := range failedAt {
-					if m.h == q.H && m.r == q.R && m.s == step {
-						rel.afterFail = true
-					}
-				}
 			}
 			sameHRSBefore := false
 			for _, p := range released {
 				if p.h == q.H && p.r == q.R && p.step == step {
 					sameHRSBefore = true
 					if !bytes.Equal(p.signBytes, sb) || !bytes.Equal(p.sig, sig) {
-						if p.afterFail && ctx.Known(c34Key) {
-							return nil
-						}
 						return fmt.Errorf("%s: DOUBLE SIGN: request %d already released a signature for the same height/round/step over different sign-bytes\n first: %x\n now:   %x", where, p.idx, p.signBytes, sb)
 					}
 					if !p.ts.Equal(ts) {
@@ -285,9 +273,6 @@ func c34Exec(ctx *vk.Ctx, c c34Case) error {
 					}
 				}
 				if c34Less(q.H, q.R, step, p.h, p.r, p.step) {
-					if p.afterFail && ctx.Known(c34Key) {
-						return nil
-					}
 					return fmt.Errorf("%s: REGRESSION: signed below request %d which released a signature at H=%d R=%d step=%d", where, p.idx, p.h, p.r, p.step)
 				}
 			}
@@ -327,10 +312,6 @@ func c34Exec(ctx *vk.Ctx, c c34Case) error {
 		if q.Fault == "persist-fail" && serr == nil && !bytes.Equal(before, after) {
 			return fmt.Errorf("harness: state file changed during a persist failure")
 		}
-		if q.Fault == "persist-fail" && serr != nil {
-			// only a request that was answered with an error counts for the known-finding matcher
-			failedAt = append(failedAt, crashMark{q.H, q.R, step})
-		}
 		ctx.ClassIf(persistTrouble && q.Fault != "persist-fail", "request-after-persist-failure")
 		ctx.NTIf(persistTrouble && q.Fault != "persist-fail")
 		if q.Restart {
@@ -338,7 +319,7 @@ func c34Exec(ctx *vk.Ctx, c c34Case) error {
 			if pv, err = load(); err != nil {
 				return fmt.Errorf("%s: cannot reload the validator after a clean restart: %v", where, err)
 			}
-			persistTrouble, failedAt = false, nil
+			persistTrouble = false
 		}
 	}
 	return nil
